@@ -969,6 +969,11 @@ func callBuiltin(caller *frame, callpos token.Pos, fn *ssa.Builtin, args []value
 		if len(args) == 1 {
 			return args[0]
 		}
+		if ss, ok := args[1].(symstr); ok {
+			// append([]byte, ...string) with symbolic bytes
+			arg0, _ := args[0].([]value)
+			return append(arg0, ss.b...)
+		}
 		if s, ok := args[1].(string); ok {
 			// append([]byte, ...string) []byte
 			arg0 := args[0].([]value)
@@ -982,6 +987,9 @@ func callBuiltin(caller *frame, callpos token.Pos, fn *ssa.Builtin, args []value
 
 	case "copy": // copy([]T, []T) int or copy([]byte, string) int
 		src := args[1]
+		if ss, ok := src.(symstr); ok {
+			return copy(args[0].([]value), ss.b)
+		}
 		if _, ok := src.(string); ok {
 			params := fn.Type().(*types.Signature).Params()
 			src = conv(params.At(0).Type(), params.At(1).Type(), src)
